@@ -13,11 +13,78 @@ use serde::{Deserialize, Serialize};
 pub enum Case {
     /// roots of a polynomial expanded from separated roots; `complex_field`: pass real-coefficient
     /// polynomials as Polynomial<Complex<f64>> as well
-    Roots { rs: RootSet, complex_field: bool, tol_exp: f64 },
+    Roots {
+        rs: RootSet,
+        complex_field: bool,
+        tol_exp: f64,
+        #[serde(default)]
+        lead: LeadScale,
+    },
     /// c_n x^n - c_0 set through set_coefficient (all low-order derivatives vanish at the origin)
-    Sparse { n: usize, cn: f64, rho: f64, phi: f64, complex_field: bool, tol_exp: f64 },
+    Sparse {
+        n: usize,
+        cn: f64,
+        rho: f64,
+        phi: f64,
+        complex_field: bool,
+        tol_exp: f64,
+        #[serde(default)]
+        lead: LeadScale,
+    },
     /// 0 Legendre, 1 Hermite, 2 Laguerre
-    Zeros { family: u8, n: u32 },
+    Zeros {
+        family: u8,
+        n: u32,
+        /// false: tol 1e-10, polynomial tolerance 1e-14; true: tol min(1e-10, 0.5/n!) and polynomial tolerance 1e-6 of
+        /// that (the root finder refuses a leading coefficient below its tolerance, and the Laguerre polynomial's is 1/n!)
+        #[serde(default)]
+        tight: bool,
+    },
+}
+
+/// A common factor on all coefficients (the roots do not move): 10^exp, times a unit complex number in the
+/// complex field (phase 0: 1, 1: i, 2: -1, 3: -i, 4: e^{i angle})
+#[derive(Clone, Debug, Default, Serialize, Deserialize)]
+pub struct LeadScale {
+    pub exp: f64,
+    pub phase: u8,
+    pub angle: f64,
+}
+
+impl LeadScale {
+    fn factor(&self, complex_field: bool) -> C64 {
+        let m = 10f64.powf(self.exp);
+        if !complex_field {
+            return c(m, 0.0);
+        }
+        match self.phase {
+            0 => c(m, 0.0),
+            1 => c(0.0, m),
+            2 => c(-m, 0.0),
+            3 => c(0.0, -m),
+            _ => C64::from_polar(m, self.angle),
+        }
+    }
+    fn label(&self, o: &mut Obs, complex_field: bool) {
+        if self.exp != 0.0 {
+            o.label("lead-scaled");
+            if self.exp <= -1.0 {
+                o.label("lead-small");
+            }
+        }
+        if complex_field && self.phase != 0 {
+            o.label("lead-complex-phase");
+            if self.phase == 1 || self.phase == 3 {
+                o.label("lead-purely-imaginary");
+            }
+        }
+    }
+}
+
+fn lead_scale() -> BoxedStrategy<LeadScale> {
+    (prop_oneof![3 => Just(0.0), 2 => gen::fl(-3.0, 3.0)], prop_oneof![3 => Just(0u8), 1 => Just(1u8), 1 => Just(2u8), 1 => Just(3u8), 2 => Just(4u8)], gen::fl(0.0, 6.2831))
+        .prop_map(|(exp, phase, angle)| LeadScale { exp, phase, angle })
+        .boxed()
 }
 
 const N_MAX: usize = 200;
@@ -42,7 +109,12 @@ fn judge_roots(mut o: Obs, found: Result<Vec<C64>, Caught>, truth: &[C64], deriv
         return o.fail("a returned root is not finite");
     }
     let dmin = derivs.iter().cloned().fold(f64::INFINITY, f64::min);
-    let bound = 2.0 * tol * (2.0 / dmin).max(1.0) + 1e-9;
+    // an absolute residual tol moves a simple root by about tol / |p'(r)|
+    let bound = 2.0 * tol * (2.0 / dmin).max(if dmin >= 1e-3 { 1.0 } else { 0.0 }) + 1e-9;
+    if bound > 0.05 {
+        // a residual tolerance this loose (scaled-down coefficients) does not pin the roots down to a third of their separation
+        return o.discard("tolerance too loose for an unambiguous matching");
+    }
     // greedy one-to-one matching (unambiguous at separation >= 0.3 as long as bound << 0.15)
     let mut used = vec![false; n];
     let mut worst: f64 = 0.0;
@@ -74,9 +146,11 @@ fn judge_roots(mut o: Obs, found: Result<Vec<C64>, Caught>, truth: &[C64], deriv
 }
 
 fn roots_of(cf: &[C64], real_field: bool, tol: f64) -> Result<Result<Vec<C64>, String>, Caught> {
+    // the polynomial's own zero tolerance: 1e-14, or a thousandth of the leading coefficient when that is smaller
+    let ptol = (1e-3 * cf.last().unwrap().norm()).min(1e-14);
     if real_field {
         let mut p: Polynomial<f64> = Polynomial::new();
-        p.set_tolerance(1e-14).unwrap();
+        p.set_tolerance(ptol).unwrap();
         for (k, a) in cf.iter().enumerate() {
             if a.re != 0.0 || k == 0 {
                 p.set_coefficient(k as u32, a.re);
@@ -85,7 +159,7 @@ fn roots_of(cf: &[C64], real_field: bool, tol: f64) -> Result<Result<Vec<C64>, S
         guard(|| p.roots(tol, N_MAX).map(|v| v.into_iter().collect()))
     } else {
         let mut p: Polynomial<C64> = Polynomial::new();
-        p.set_tolerance(1e-14).unwrap();
+        p.set_tolerance(ptol).unwrap();
         for (k, a) in cf.iter().enumerate() {
             if a.norm() != 0.0 || k == 0 {
                 p.set_coefficient(k as u32, *a);
@@ -160,25 +234,39 @@ fn reference_zeros(family: u8, n: u32) -> Vec<f64> {
 pub fn run_case(case: &Case) -> Outcome {
     let mut o = Obs::new();
     match case {
-        Case::Roots { rs, complex_field, tol_exp } => {
+        Case::Roots { rs, complex_field, tol_exp, lead } => {
             let truth = rs.all_roots();
             let n = truth.len();
-            let cf = rs.coeffs();
+            let real_field = rs.real_coeffs && !*complex_field;
+            let fac = lead.factor(!real_field);
+            lead.label(&mut o, !real_field);
+            let cf: Vec<C64> = rs.coeffs().iter().map(|z| z * fac).collect();
             let floor = noise_floor(&cf);
-            // tolerance: from 10x the evaluation noise floor upwards (to 1e-6 when that is larger)
-            let lo = 10.0 * floor;
-            let hi = lo.max(1e-6);
+            // tolerance: from 10x the evaluation noise floor upwards (to 1e-6 x the common factor when that is larger);
+            // the same number is the step tolerance of the polishing Newton iteration, which cannot go below the
+            // rounding of the roots themselves however small the coefficients are: for scaled-down coefficients
+            // the lower end stays where it is for the unscaled polynomial
+            let lo = if lead.exp < 0.0 { 10.0 * floor / fac.norm() } else { 10.0 * floor };
+            let hi = lo.max(1e-6 * fac.norm().min(1.0));
+            if lead.exp < 0.0 && lo > 1e-6 * fac.norm() {
+                // scaled-down coefficients: the residual tolerance must stay <= 1e-6 relative to the scaling, the
+                // Newton step tolerance above the rounding of the roots; no admissible value is left
+                return o.discard("no admissible tolerance for the scaled-down polynomial");
+            }
             let tol = lo * (hi / lo).powf(tol_exp.clamp(0.0, 1.0)) * if *tol_exp > 1.0 { 10f64.powf(tol_exp - 1.0) } else { 1.0 };
             o.set("tol", tol);
             o.set("degree", n);
-            let real_field = rs.real_coeffs && !*complex_field;
+            if !(tol <= 0.5 * cf.last().unwrap().norm()) {
+                // the root finder refuses a leading coefficient below its tolerance (documented Err)
+                return o.discard("tolerance not below the scaled leading coefficient");
+            }
             o.label(if real_field { "real-field" } else if rs.real_coeffs { "real-coeffs-complex-field" } else { "complex-coeffs" });
             o.label(format!("deg{n}"));
             if rs.real_coeffs && rs.roots.iter().any(|r| r.1 != 0.0) {
                 o.label("conjugate-pairs");
             }
             o.nontrivial = n >= 3;
-            let derivs: Vec<f64> = (0..n).map(|i| deriv_at_root(rs, i)).collect();
+            let derivs: Vec<f64> = (0..n).map(|i| deriv_at_root(rs, i) * fac.norm()).collect();
             let res = roots_of(&cf, real_field, tol);
             let res = match res {
                 Ok(Ok(v)) => Ok(v),
@@ -187,7 +275,9 @@ pub fn run_case(case: &Case) -> Outcome {
             };
             judge_roots(o, res, &truth, &derivs, tol, rs.real_coeffs)
         }
-        Case::Sparse { n, cn, rho, phi, complex_field, tol_exp } => {
+        Case::Sparse { n, cn, rho, phi, complex_field, tol_exp, lead } => {
+            let fac = lead.factor(*complex_field);
+            lead.label(&mut o, *complex_field);
             let n = *n;
             o.label("sparse");
             o.label(format!("deg{n}"));
@@ -200,12 +290,23 @@ pub fn run_case(case: &Case) -> Outcome {
             let q = c0 / cn; // x^n = q
             let (r, th) = (q.norm().powf(1.0 / n as f64), q.arg());
             let truth: Vec<C64> = (0..n).map(|k| C64::from_polar(r, (th + 2.0 * std::f64::consts::PI * k as f64) / n as f64)).collect();
-            let derivs: Vec<f64> = truth.iter().map(|z| n as f64 * cn.abs() * z.norm().powi(n as i32 - 1)).collect();
+            let derivs: Vec<f64> = truth.iter().map(|z| n as f64 * cn.abs() * fac.norm() * z.norm().powi(n as i32 - 1)).collect();
+            for z in cf.iter_mut() {
+                *z *= fac;
+            }
             let floor = noise_floor(&cf);
-            let lo = 10.0 * floor;
-            let hi = lo.max(1e-6);
+            let lo = if lead.exp < 0.0 { 10.0 * floor / fac.norm() } else { 10.0 * floor };
+            let hi = lo.max(1e-6 * fac.norm().min(1.0));
+            if lead.exp < 0.0 && lo > 1e-6 * fac.norm() {
+                // scaled-down coefficients: the residual tolerance must stay <= 1e-6 relative to the scaling, the
+                // Newton step tolerance above the rounding of the roots; no admissible value is left
+                return o.discard("no admissible tolerance for the scaled-down polynomial");
+            }
             let tol = lo * (hi / lo).powf(tol_exp.clamp(0.0, 1.0));
             o.set("tol", tol);
+            if !(tol <= 0.5 * cf[n].norm()) {
+                return o.discard("tolerance not below the scaled leading coefficient");
+            }
             let res = roots_of(&cf, !*complex_field, tol);
             let res = match res {
                 Ok(Ok(v)) => Ok(v),
@@ -214,15 +315,20 @@ pub fn run_case(case: &Case) -> Outcome {
             };
             judge_roots(o, res, &truth, &derivs, tol, !*complex_field)
         }
-        Case::Zeros { family, n } => {
+        Case::Zeros { family, n, tight } => {
             let (family, n) = (*family % 3, *n);
+            let fact: f64 = (1..=n).map(|k| k as f64).product();
+            let (ztol, ptol) = if *tight { ((0.5 / fact).min(1e-10), (0.5 / fact).min(1e-10) * 1e-6) } else { (1e-10, 1e-14) };
+            if *tight {
+                o.label("zeros-tight-tolerance");
+            }
             let name = ["legendre_zeros", "hermite_zeros", "laguerre_zeros"][family as usize];
             o.label(name);
             o.nontrivial = n >= 2;
             let res = guard(|| match family {
-                0 => legendre_zeros::<f64>(n, 1e-10, 1e-14, N_MAX),
-                1 => hermite_zeros::<f64>(n, 1e-10, 1e-14, N_MAX),
-                _ => laguerre_zeros::<f64>(n, 1e-10, 1e-14, N_MAX),
+                0 => legendre_zeros::<f64>(n, ztol, ptol, N_MAX),
+                1 => hermite_zeros::<f64>(n, ztol, ptol, N_MAX),
+                _ => laguerre_zeros::<f64>(n, ztol, ptol, N_MAX),
             });
             let zs = match res {
                 Ok(Ok(v)) => v,
@@ -272,30 +378,33 @@ pub fn run_case(case: &Case) -> Outcome {
 
 fn strategy(_t: Tier) -> BoxedStrategy<Case> {
     let rs = prop_oneof![2 => real_roots_only(1, 10), 3 => real_rootset(1, 10), 3 => complex_rootset(1, 10)];
-    let roots = (rs, any::<bool>(), prop_oneof![4 => gen::fl(0.0, 1.0), 1 => gen::fl(1.0, 2.0)]).prop_map(|(rs, complex_field, tol_exp)| Case::Roots { rs, complex_field, tol_exp });
-    let sparse = (3usize..=10, (gen::logu(-1.0, 1.0), gen::sign()), gen::fl(0.6, 2.5), gen::fl(0.0, 6.28), any::<bool>(), gen::fl(0.0, 1.0))
-        .prop_map(|(n, (m, s), rho, phi, complex_field, tol_exp)| Case::Sparse { n, cn: m * s, rho, phi, complex_field, tol_exp });
+    let roots = (rs, any::<bool>(), prop_oneof![4 => gen::fl(0.0, 1.0), 1 => gen::fl(1.0, 2.0)], lead_scale()).prop_map(|(rs, complex_field, tol_exp, lead)| Case::Roots { rs, complex_field, tol_exp, lead });
+    let sparse = (3usize..=10, (gen::logu(-1.0, 1.0), gen::sign()), gen::fl(0.6, 2.5), gen::fl(0.0, 6.28), any::<bool>(), gen::fl(0.0, 1.0), lead_scale())
+        .prop_map(|(n, (m, s), rho, phi, complex_field, tol_exp, lead)| Case::Sparse { n, cn: m * s, rho, phi, complex_field, tol_exp, lead });
     prop_oneof![5 => roots, 1 => sparse].boxed()
 }
 
 pub fn run(opts: &Opts) -> i32 {
     let mut spec = Spec::new("C14", strategy, run_case);
     for n in 0..=16u32 {
-        spec.enumerated.push(Case::Zeros { family: 0, n });
-        spec.enumerated.push(Case::Zeros { family: 1, n });
+        spec.enumerated.push(Case::Zeros { family: 0, n, tight: false });
+        spec.enumerated.push(Case::Zeros { family: 1, n, tight: false });
         if n <= 12 {
-            spec.enumerated.push(Case::Zeros { family: 2, n });
+            spec.enumerated.push(Case::Zeros { family: 2, n, tight: false });
+        }
+        if n <= 14 {
+            spec.enumerated.push(Case::Zeros { family: 2, n, tight: true });
         }
     }
     for n in 3..=10usize {
         for complex_field in [false, true] {
-            spec.enumerated.push(Case::Sparse { n, cn: 1.0, rho: 1.0, phi: 0.0, complex_field, tol_exp: 1.0 });
+            spec.enumerated.push(Case::Sparse { n, cn: 1.0, rho: 1.0, phi: 0.0, complex_field, tol_exp: 1.0, lead: LeadScale::default() });
         }
     }
     spec.cases = opts.tier.pick(400_000, 10_000_000);
-    spec.exhaustive = Some("orthogonal-polynomial zeros: Legendre and Hermite n=0..16, Laguerre n=0..12".into());
-    spec.essential = vec![("sparse", 0.1), ("conjugate-pairs", 0.15), ("complex-coeffs", 0.2), ("real-field", 0.2), ("deg10", 0.03)];
-    spec.rule = "generated: polynomials of degree 1-10 expanded in the harness from roots placed by grid construction (pairwise separation >= 0.3, |z| <= 3): real roots, conjugate pairs (real coefficients, also passed through the complex field) and arbitrary complex roots, leading coefficient +-10^[-1,1]; sparse class c_n x^n - c_0 (n=3..10) set through set_coefficient; tolerance log-uniform from 10x the evaluation noise floor 4 n eps sum|c_k|3^k up to 1e-6 (above it when the floor is larger); n_max = 200. Oracle: Ok required, exactly deg results, greedy one-to-one matching within 2 tol max(1, 2/min|p'(r_i)|) + 1e-9, conjugation closure for real coefficients. Enumerated: zeros of Legendre/Hermite (n<=16) and Laguerre (n<=12) against zeros bracketed and bisected on the three-term recurrences in the harness (1e-8). Non-trivial = degree >= 3, or sparse, or zeros with n >= 2. Distinct = distinct case JSON.".into();
+    spec.exhaustive = Some("orthogonal-polynomial zeros: Legendre and Hermite n=0..16, Laguerre n=0..12 at tol 1e-10 and n=0..14 at tol min(1e-10, 0.5/n!)".into());
+    spec.essential = vec![("sparse", 0.1), ("conjugate-pairs", 0.15), ("complex-coeffs", 0.2), ("real-field", 0.2), ("deg10", 0.03), ("lead-purely-imaginary", 0.05), ("lead-small", 0.05)];
+    spec.rule = "generated: polynomials of degree 1-10 expanded in the harness from roots placed by grid construction (pairwise separation >= 0.3, |z| <= 3): real roots, conjugate pairs (real coefficients, also passed through the complex field) and arbitrary complex roots, leading coefficient +-10^[-1,1], all coefficients optionally times a common factor 10^[-3,3] and, in the complex field, times i, -1, -i or a random unit complex number (roots unchanged; polynomial tolerance min(1e-14, lead/1000); scaled-down cases keep the lower tolerance end of the unscaled polynomial because the same number is the Newton step tolerance of the polishing pass); sparse class c_n x^n - c_0 (n=3..10) set through set_coefficient; tolerance log-uniform from 10x the evaluation noise floor 4 n eps sum|c_k|3^k up to 1e-6 (above it when the floor is larger); n_max = 200. Oracle: Ok required, exactly deg results, greedy one-to-one matching within 2 tol max(1, 2/min|p'(r_i)|) + 1e-9, conjugation closure for real coefficients. Enumerated: zeros of Legendre/Hermite (n<=16) and Laguerre (n<=12; n<=14 with the root tolerance min(1e-10, 0.5/n!) below the leading coefficient 1/n!) against zeros bracketed and bisected on the three-term recurrences in the harness (1e-8). Non-trivial = degree >= 3, or sparse, or zeros with n >= 2. Distinct = distinct case JSON.".into();
     spec.max_shrink_iters = 3000;
     run_spec(spec, opts)
 }
